@@ -192,7 +192,8 @@ def gen_leaf(rng, fuzzy=True, scoring=False, boolean=False):
     elif r < 0.65:
         q = query.Wildcard("t", rng.choice(["a*", "*a", "?l*", "b?avo", "*", "al?a", "*o*", "alfa"]))
     elif r < 0.68:
-        q = query.Regex("t", rng.choice(["a.*", ".*o", "b(ra)+v.*", "alf?", "[a-c].*", "x"]))
+        q = query.Regex("t", rng.choice(["a.*", ".*o", "b(ra)+v.*", "alf?", "[a-c].*", "x", "alfx{0,2}a", "brx{0}avo", "ch{1,2}arlie",
+                                         "ec{0,1}ho", "delt{0,}a", "gol+f", "(?i)ALFA", "^alfa$", "\\Abravo"]))
     elif r < 0.74:
         a, b = sorted([rng.randint(-6, 6), rng.randint(-6, 6)])
         q = query.NumericRange("n", rng.choice([a, None]), rng.choice([b, None]), rng.random() < .3, rng.random() < .3)
